@@ -22,7 +22,7 @@ ASSUMPTIONS = ["Model/Heck.v (ASCII bytes) is tied by the exhaustive sweep; iden
 DICT = ["HTTPServer", "XMLHttpRequest2", "Utf8_String", "GreenApple", "Red", "X", "Id", "IOError", "A1b2", "Abc_def", "snake_name",
         "SCREAMING_ONE", "Blue2Go", "darkGray", "Http2_Proxy", "V10", "QRCode", "WiFi", "Z9", "__Private", "Trailing_", "a", "AB", "ABc",
         "AbC", "aBC", "A1", "A_1", "x1Y2z3", "HTMLParser", "parseHTML", "getX", "XY_Z", "Ab__Cd", "L10n", "i18nText", "ISO8601Date",
-        "Point3D", "Vec2f", "u8Value"]
+        "Point3D", "Vec2f", "u8Value", "Y", "_W", "Q_", "Zz"]
 RAW = ["r#type", "r#Match", "r#loop_Forever", "r#HTTPAsync"]      # raw identifiers: the name is the identifier without `r#`
 NEAR = ["Snake_Case", "snake-case", "camelcase", "", "PASCALCASE", "kebab-case ", "SCREAMING_KEBAB_CASE", "train-case", "Title_Case",
         "pascal_case", "Mixed_case", "UPPER_CASE", "lower_case", "snake case", "camel-case", "shouty-snake-case"]
@@ -31,7 +31,10 @@ ALPHA = "abAB1_"
 # and underscores; letters whose case mapping changes the length (ß, ŉ, İ, ǆ) or depends on position (Σ)
 UNI = ["ÉlanVital", "ÜberMensch", "Ωmega", "élanVital", "straßeName", "Naïve_Bayes", "ДобрыйДень", "добрый_день", "日本語", "Ǆungla", "ǅungla",
        "ǆungla", "İstanbul", "ıdeal", "ΣίσυφοςΣ", "ΟΔΟΣ", "ßeta", "ŉTest", "Öl2", "Über9Mensch", "Café3", "x1É2", "HTTPÉcole", "éA", "Éa", "aÉ", "ÀB_ÇD",
-       "Ünï_cödé_Mïx42", "Straße", "ÅngströmUnit", "ñandú", "Ñandú9"]
+       "Ünï_cödé_Mïx42", "Straße", "ÅngströmUnit", "ñandú", "Ñandú9",
+       # numeric characters that are not ASCII digits; one-letter words; lower-case initials whose upper case does not map back
+       "Page٣", "BandⅧ", "Ｘ３y", "Row〇x", "µs", "ſharp", "ǰx", "É", "ß", "Σ", "ΣKey", "xΣ"]
+# one-letter and two-letter ASCII identifiers belong to the dictionary as well (camelCase lower-cases the only letter)
 
 
 def crate_configs(tier):
